@@ -24,6 +24,7 @@ LEVEL = "exploration"
 BASE_FLAGS = ["--show-column-numbers", "--no-error-summary", "--hide-error-context", "--no-color-output", "--config-file", os.devnull]
 
 _REC: list | None = None
+_ONCE: list | None = None
 _PATCHED = False
 
 
@@ -46,6 +47,10 @@ def install_observer():
                 info.origin_span = a
                 span = b
             spans[id(info)] = [int(x) for x in span]
+            if info.only_once and _ONCE is not None:
+                # every emission of a once-per-run message, including the ones the only_once filter will drop
+                _ONCE.append({"file": file or self.file, "line": info.line, "col": info.column, "sev": info.severity, "msg": info.message,
+                              "code": info.code.code if info.code else None, "blocker": bool(info.blocker), "span": list(spans[id(info)])})
         try:
             return orig_outer(self, info, file=file)
         finally:
@@ -76,7 +81,7 @@ def install_observer():
 
 
 def run_mypy(files, flags, observe=False):
-    global _REC
+    global _REC, _ONCE
     d = mypyrun.scratch("c13")
     cdir = mypyrun.scratch("c13cache")
     try:
@@ -85,9 +90,13 @@ def run_mypy(files, flags, observe=False):
         if observe:
             install_observer()
             _REC = []
+            _ONCE = []
         out, err, st = mypyrun.run_inproc(BASE_FLAGS + flags + ["--cache-dir", cdir, "main.py"], cwd=d)
         rec = _REC
+        if rec is not None:
+            rec.append({"__once__": _ONCE or []})
         _REC = None
+        _ONCE = None
     finally:
         mypyrun.rmtree(d)
         mypyrun.rmtree(cdir)
@@ -144,7 +153,9 @@ def parent_map():
 
 
 def key_of_raw(r):
-    return (r["file"], r["line"], (r["col"] + 1) if r["col"] is not None and r["col"] >= 0 else None, r["sev"], r["msg"], r["code"])
+    # notes are printed without their code, except for the two codes errors.py lists in SHOW_NOTE_CODES
+    code = r["code"] if (r["sev"] != "note" or r["code"] in ("annotation-unchecked", "deprecated")) else None
+    return (r["file"], r["line"], (r["col"] + 1) if r["col"] is not None and r["col"] >= 0 else None, r["sev"], r["msg"], code)
 
 
 def key_of_diag(x):
@@ -178,7 +189,7 @@ def eval_case(arg):
             chosen = sorted(rnd.sample(err_lines, k))
             if rnd.random() < 0.3:
                 # also annotate a line WITHOUT errors (must be reported unused under the flag, and change nothing)
-                clean = sorted(ok_lines - {x.line for x in ds if x.file == "main.py"} - {l for r in rec for l in r["span"]})
+                clean = sorted(ok_lines - {x.line for x in ds if x.file == "main.py"} - {l for r in rec if "span" in r for l in r["span"]})
                 if clean:
                     chosen = sorted(set(chosen) | {rnd.choice(clean)})
             ann = {}
@@ -241,6 +252,12 @@ def drop_flags(flags, prefixes):
     return out
 
 
+def norm_msg(m: str) -> str:
+    import re
+
+    return re.sub(r"\"[^\"]*\"", "Q", m)[:60]
+
+
 def exit_rule(st, ds, rest) -> str | None:
     has_err = any(x[5] == "error" for x in ds)
     if st == 0 and has_err:
@@ -265,6 +282,10 @@ def judge(run: Run, res) -> None:
         run.report("exit-status|baseline|%d" % base["st"], case0, "%s: %s" % (e, base["ds"][:3]))
     pm = parent_map()
     rec = base["rec"] or []
+    once = []
+    if rec and "__once__" in rec[-1]:
+        once = rec[-1]["__once__"]
+        rec = rec[:-1]
     B = [diag.Diag(*t) for t in base["ds"]]
     rawkeys: dict = {}
     for r in rec:
@@ -300,7 +321,8 @@ def judge(run: Run, res) -> None:
                 if not extra and all(k[3] == "note" and k[5] is None for k in lost):
                     run.label("disable:codeless_notes_removed_with_parent")
                 else:
-                    run.report("code-disable|other-diagnostic-changed|%s" % ("lost" if lost else "extra" if extra else "order"), case, "--disable-error-code %s changed other diagnostics: lost %s extra %s" % (c, lost[:3], extra[:3]))
+                    first = (lost + extra)[0] if (lost or extra) else (None,) * 6
+                    run.report("code-disable|other-diagnostic-changed|%s|%s|%s" % ("lost" if lost else "extra" if extra else "order", first[5] or "nocode", norm_msg(first[4] or "")), case, "--disable-error-code %s changed other diagnostics: lost %s extra %s" % (c, lost[:3], extra[:3]))
             if must_go and len(exp) > 0:
                 run.nontriv(chash([files, "disable", c]))
             continue
@@ -347,8 +369,41 @@ def judge(run: Run, res) -> None:
                 unused_codes = [c for c in cs if c not in used[ln]]
                 if unused_codes:
                     exp_unused_lines[ln] = "parent-used-via-subcode" if any(c in via[ln] for c in unused_codes) else "coded"
+        # once-per-run messages: the first UNSUPPRESSED emission is the one that is shown
+        def is_sup(r):
+            if r["file"] != "main.py" or r["blocker"]:
+                return False
+            for ln in r["span"]:
+                if ln in ann:
+                    cs = ann[ln]
+                    if cs is None or (r["code"] is not None and (r["code"] in cs or pm.get(r["code"]) in cs)):
+                        return True
+            return False
+
+        relocated = []
+        seen_msgs = set()
+        for r in once:
+            if r["msg"] in seen_msgs:
+                continue
+            if not is_sup(r):
+                seen_msgs.add(r["msg"])
+                k = key_of_raw(r)
+                if k not in Bk:
+                    relocated.append(k)
+        for k in relocated:
+            if k not in Vk:
+                run.report("once-only-message|lost-when-first-occurrence-suppressed|%s" % norm_msg(k[4]), case, "the first emission of a once-per-run message is suppressed by an ignore comment, so it must be shown at its next emission %s - but it is not" % (k,))
         removed = [k for k in Bk if k not in Vk]
-        added = [k for k in Vk if k not in Bk]
+        added = [k for k in Vk if k not in Bk and k not in relocated]
+        # the same error with its "; did you mean ...?" suggestion dropped (semanal skips the suggestion on lines
+        # that carry an ignore comment): one changed message, not a removal plus an addition
+        for a in list(added):
+            for r in list(removed):
+                if a[:4] == r[:4] and a[5] == r[5] and r[4].startswith(a[4]) and "; did you mean" in r[4][len(a[4]) :][:16]:
+                    added.remove(a)
+                    removed.remove(r)
+                    run.report("message-changed|did-you-mean-suggestion-dropped-on-ignored-line", case, "an unsuppressed error on an annotated line lost its suggestion: %s -> %s" % (r[4], a[4]))
+                    break
         # (1) nothing else disappears
         for k in removed:
             if k not in may_remove and k not in unknown_base:
@@ -369,6 +424,8 @@ def judge(run: Run, res) -> None:
             if k[5] == "unused-ignore" and k[3] == "error" and k[0] == "main.py":
                 if not warn_unused:
                     run.report("unused-ignore|reported-without-flag", case, "unused-ignore reported without --warn-unused-ignores: %s" % (k,))
+                elif k[1] not in ann:
+                    run.label("unused_ignore_on_preexisting_comment")  # the program's own ignore comments, switched on by the flag
                 elif k[1] not in exp_unused_lines:
                     run.report("unused-ignore|reported-though-used", case, "ignore on line %d suppressed %s but is reported unused: %s" % (k[1], sorted(used.get(k[1], [])), k))
                 elif exp_unused_lines[k[1]] == "parent-used-via-subcode":
@@ -378,7 +435,7 @@ def judge(run: Run, res) -> None:
             elif k[3] == "note" and k[0] == "main.py" and k[5] == "unused-ignore":
                 pass
             else:
-                run.report("suppression|new-diagnostic|%s" % (k[5] or "nocode"), case, "ignore comments %s introduced a diagnostic: %s" % (var["ann"], k))
+                run.report("suppression|new-diagnostic|%s|%s" % (k[5] or "nocode", norm_msg(k[4])), case, "ignore comments %s introduced a diagnostic: %s" % (var["ann"], k))
         if warn_unused:
             got_unused = {k[1] for k in Vk if k[5] == "unused-ignore" and k[3] == "error" and k[0] == "main.py"}
             for ln, why in exp_unused_lines.items():
